@@ -438,6 +438,15 @@ def trainer_defaults(only=None, prefix="C18"):
             if got is None or abs(float(got) - v) > 1e-12:
                 fails.append({"what": f"{prefix}/defaults/{cls}/{nm}", "input": dict(trainer=cls), "expected": v, "actual": got})
                 break
+        if names is None:
+            # one side's kernel arguments overridden for a cell: the other side keeps the trainer's
+            for side, other, keep in (("post", "pre", dict(learning_rate=-0.25, time_constant=12.0)), ("pre", "post", dict(learning_rate=0.5, time_constant=10.0))):
+                st2 = tr._build_cell_state(**{f"kernel_{side}_kwargs": dict(learning_rate=0.125, time_constant=3.0)})
+                got_o = dict(getattr(st2, f"kernel_{other}_kwargs"))
+                got_s = dict(getattr(st2, f"kernel_{side}_kwargs"))
+                if got_o != keep or got_s != dict(learning_rate=0.125, time_constant=3.0):
+                    fails.append({"what": f"{prefix}/defaults/{cls}/per_cell_kernel_override", "input": dict(trainer=cls, overridden=side), "expected": {side: dict(learning_rate=0.125, time_constant=3.0), other: keep}, "actual": {side: got_s, other: got_o}})
+                    break
         custom = lambda x, dim=None, keepdim=False: x.sum(dim, keepdim=keepdim)  # noqa: E731
         if C(*args, batch_reduction=custom)._build_cell_state().batchreduce is not custom or tr._build_cell_state(batch_reduction=custom).batchreduce is not custom:
             fails.append({"what": f"{prefix}/defaults/{cls}/configured_reduction_ignored", "input": dict(trainer=cls), "expected": "custom", "actual": "other"})
